@@ -4,6 +4,7 @@ package main
 // handling, facts about package-level variables.
 
 import (
+	"go/constant"
 	"fmt"
 	"os"
 	"sort"
@@ -758,17 +759,63 @@ func (e *Engine) existsHints(fr *Frame, st *State, g *Term) *Term {
 		}
 	}
 	sort.Slice(cells, func(i, j int) bool { return cells[i].name < cells[j].name })
+	// small integer constants of the function's own code serve as offsets (v+5 for an index found in b[5:])
+	offs := []int64{0, 1}
+	offSeen := map[int64]bool{0: true, 1: true}
+	for _, b := range fr.fn.Blocks {
+		for _, ins := range b.Instrs {
+			for _, op := range ins.Operands(nil) {
+				if op == nil || *op == nil {
+					continue
+				}
+				if c, ok := (*op).(*ssa.Const); ok && c.Value != nil && c.Value.Kind() == constant.Int {
+					if v, ok := constant.Int64Val(c.Value); ok && v >= 2 && v <= 16 && !offSeen[v] && len(offs) < 6 {
+						offSeen[v] = true
+						offs = append(offs, v)
+					}
+				}
+			}
+		}
+	}
+	// lengths of the frame's slice variables are witnesses too (an index right after a field)
+	var scells []*Cell
+	for c, v := range st.cells {
+		if v.Sort == SSlice && c.key != nil && c.name != "" && !strings.Contains(c.name, "$") {
+			scells = append(scells, c)
+		}
+	}
+	sort.Slice(scells, func(i, j int) bool { return scells[i].name < scells[j].name })
+	for _, c := range scells {
+		x := e.sLen(st.cells[c])
+		if !seen[x] && !x.open && x.Op != "bvlit" {
+			seen[x] = true
+			cands = append(cands, x)
+		}
+	}
 	for _, c := range cells {
 		v := st.cells[c]
-		for _, x := range []*Term{v, tb.BVBin("bvadd", v, tb.BV(1, 64))} {
+		for _, o := range offs {
+			x := v
+			if o != 0 {
+				x = tb.BVBin("bvadd", v, tb.BV(o, 64))
+			}
 			if !seen[x] && !x.open && x.Op != "bvlit" {
 				seen[x] = true
 				cands = append(cands, x)
 			}
 		}
 	}
-	if len(cands) > 40 {
-		cands = cands[:40]
+	if len(cands) > 60 {
+		cands = cands[:60]
+	}
+	// literal witnesses: the code's small constants and their successors
+	for _, o := range offs {
+		for _, x := range []*Term{tb.BV(o, 64), tb.BV(o+1, 64)} {
+			if !seen[x] {
+				seen[x] = true
+				cands = append(cands, x)
+			}
+		}
 	}
 	if os.Getenv("GOVC_DEBUG") != "" {
 		fmt.Fprintf(os.Stderr, "EXISTS-HINTS %d candidates:", len(cands)); for _, c := range cells { fmt.Fprintf(os.Stderr, " %s", c.name) }; fmt.Fprintln(os.Stderr)
@@ -817,3 +864,35 @@ func (e *Engine) existsHints(fr *Frame, st *State, g *Term) *Term {
 	return out
 }
 
+
+// globalBytesLit: package-level `var x = []byte("literal")`.
+func (e *Engine) globalBytesLit(g *ssa.Global) (string, bool) {
+	t := g.Type().(*types.Pointer).Elem()
+	if !isByteSlice(t) {
+		return "", false
+	}
+	spec, idx := e.findGlobalSpec(g)
+	if spec == nil || len(spec.Values) <= idx {
+		return "", false
+	}
+	c, ok := spec.Values[idx].(*ast.CallExpr)
+	if !ok || len(c.Args) != 1 {
+		return "", false
+	}
+	at, ok := c.Fun.(*ast.ArrayType)
+	if !ok || at.Len != nil {
+		return "", false
+	}
+	if id, ok := at.Elt.(*ast.Ident); !ok || id.Name != "byte" {
+		return "", false
+	}
+	bl, ok := c.Args[0].(*ast.BasicLit)
+	if !ok || bl.Kind != token.STRING {
+		return "", false
+	}
+	s, err := strconv.Unquote(bl.Value)
+	if err != nil {
+		return "", false
+	}
+	return s, true
+}
